@@ -2,7 +2,7 @@
    bool/option/list/prod/unit/sumbool map to OCaml's; nat, positive, Z, Q stay the
    extracted inductive types (no Extract Constant / Extract Inductive of our own). *)
 From Coq Require Import Extraction ExtrOcamlBasic QArith List.
-From VOPy Require Import QVec Cone Pareto ParetoQ Rect Ellipsoid FM RectCover Pessimistic Spec Tables Optimize Empirical DesignSpace Metrics Problem Adaptive.
+From VOPy Require Import QVec Cone Pareto ParetoQ Rect Ellipsoid FM RectCover Pessimistic Spec Tables Optimize Empirical DesignSpace Metrics Problem Adaptive Constants.
 Extraction Language OCaml.
 Extraction "model.ml"
   QVec.dot QVec.inside QVec.dominates Cone.inside_batch Cone.eye
@@ -14,5 +14,6 @@ Extraction "model.ml"
   Optimize.opt_discrete Optimize.index_vals Optimize.decoupled_ok Optimize.global_topq_ok
   Metrics.smallm Metrics.delta Metrics.pcov_witness_ok Metrics.pcov_far_ok Metrics.f1 Problem.nearest
   Adaptive.children Adaptive.centre
+  Constants.alpha_upper_ok Constants.alpha_lower_ok Constants.dstar_lower_ok_strict Constants.dstar_upper_ok
   DesignSpace.ds_update DesignSpace.mkpred
   Empirical.emp_init Empirical.step Empirical.run Empirical.predict1.
